@@ -202,7 +202,7 @@ def gen_addition(rng, H):
     def members(lo=1, hi=3):
         return [rng.choice(pool + fresh_nodes) for _ in range(rng.randint(lo, hi))]
     # explicit id choices: an existing one, 0, small ints around the current ids, strings
-    cand = ids[:3] + [0, 1, 2, len(ids), len(ids) + 1, "new", -1]
+    cand = ids[:3] + [0, 1, 2, len(ids), len(ids) + 1, "new", -1, float(len(ids) + 1), 2.0, np.int64(len(ids) + 2), "7"]
     kind = rng.random()
     if isinstance(H, xgi.DiHypergraph):
         mk = lambda: (members(1, 2), members(1, 2))
@@ -237,7 +237,12 @@ def gen_addition(rng, H):
         eb = [(members(), rng.choice(cand), {"w": 2}) for _ in range(rng.randint(1, 3))]; return {"call": "add_edges_from", "fmt": 4, "ebunch": eb}, lambda: H.add_edges_from(eb)
     if kind < 0.96:
         eb = {rng.choice(cand): members() for _ in range(rng.randint(1, 3))}; return {"call": "add_edges_from", "fmt": 5, "ebunch": eb}, lambda: H.add_edges_from(eb)
-    i = rng.choice([c for c in cand if c not in ids] or ["fresh"])
+    def _is_key(c):
+        try:
+            return c in H._edge if hasattr(H, "_edge") else any(hash(c) == hash(i) and bool(c == i) for i in ids)
+        except Exception:  # noqa
+            return True
+    i = rng.choice([c for c in cand if not _is_key(c) and not isinstance(c, float)] or ["fresh"])
     x = rng.choice(pool)
     return {"call": "add_node_to_edge", "edge": i, "node": x}, lambda: H.add_node_to_edge(i, x)
 
